@@ -195,8 +195,7 @@ def run(prog, chk):
                key='roots:' + name)
         # prefer flag definition
         pv = [n for n in SX.walk(bf.body) if n['k'] == 'var' and n['type'] in ('bool', 'const bool') and SX.is_node(n.get('init'))]
-        okp = any('front()' in SX.show(v['init']) and '"bloch"' in SX.show(v['init']) and ('==' in SX.show(v['init']))
-                  and any(x['k'] == 'ref' and x.get('id') == partsid for x in SX.walk(v['init'])) for v in pv)
+        okp = any(_prefers_bloch(v['init'], partsid) for v in pv)
         chk.ob('R19.3', f, f.ln, okp, '%s: search-path preference is decided by first component == "bloch"' % name, key='prefer:' + name)
         # first hit wins: a return inside the loop over the roots
         loops = [n for n in SX.walk(f.body) if n['k'] == 'forrange' and SX.is_node(SX.strip(n['range'])) and
@@ -273,6 +272,42 @@ def run(prog, chk):
     incs = [n for n, l, r, op in gl.writes() if op == '++' and any(SX.is_node(SX.strip(l)) and SX.strip(l).get('id') == v['id'] for v in cnt)]
     okc = bool(incs) and all(any(pol and '"main"' in SX.show(ce) for ce, pol, _ in gl.guards(n)) for n in incs)
     chk.ob('R19.5', ld, ld.ln, okc, 'main counter is incremented exactly for functions named "main"', key='main-count')
+
+
+def _prefers_bloch(e, partsid):
+    """e is exactly `<parts> is not empty && <parts>.front() == "bloch"` (conjuncts in any order, equivalent spellings of the
+    two tests) — any further conjunct narrows the rule for some package name (e.g. `parts.size() > 1` drops the package `bloch`)"""
+    from .C13 import _size_lower_bound
+    conj = []
+
+    def split(x):
+        x = SX.strip(x)
+        while SX.is_node(x) and x.get('k') == 'cast':
+            x = SX.strip(x['e'])
+        if SX.is_node(x) and x.get('k') == 'bin' and x.get('op') == '&&':
+            split(x['l'])
+            split(x['r'])
+        else:
+            conj.append(x)
+    split(e)
+    kinds = []
+    for c in conj:
+        refs = [y for y in SX.walk(c) if y.get('k') == 'ref' and y.get('id') == partsid]
+        if not refs:
+            kinds.append('other')
+            continue
+        P = SX.show(refs[0])
+        if _size_lower_bound(c, True, P) == 1:
+            kinds.append('nonempty')
+            continue
+        cp = SX.cmp_parts(c)
+        if cp and cp[0] == '==':
+            txt = {SX.show(SX.strip(cp[1])).replace(' ', ''), SX.show(SX.strip(cp[2])).replace(' ', '')}
+            if any(t in txt for t in ('"bloch"', 'std::string("bloch")', 'conststd::string("bloch")')) and any(t in txt for t in (P + '.front()', P + '[0]')):
+                kinds.append('isbloch')
+                continue
+        kinds.append('other')
+    return sorted(kinds) == ['isbloch', 'nonempty']
 
 
 def _leaves_loop_after(g, hit, head):
